@@ -1,7 +1,9 @@
 """C18 — write_to_textfile replaces the target atomically or not at all.
 
-The REAL `prometheus_client.exposition.write_to_textfile` runs in a scratch directory.  What it sees as `open` and `os`
-is replaced (module attributes `exposition.open` / `exposition.os`, restored afterwards) by thin wrappers that
+The REAL `prometheus_client.exposition.write_to_textfile` runs in a scratch directory.  For the duration of each call the
+file effects — `builtins.open`, `os.rename`, `os.replace`, `os.remove`, `os.unlink`, `os.path.exists` — are instrumented
+PROCESS-WIDE (acting only in the calling thread and only on paths inside the scratch directory; restored in a finally),
+so effects reached indirectly (shutil, a helper function …) are seen exactly like direct ones.  The wrappers
 
   * record every I/O step (open, each piece of f.write, close/__exit__, os.rename/os.replace, os.path.exists, os.remove)
     and every collector call as (kind, which path: tmp/target/other), and after each step snapshot the target content,
@@ -243,65 +245,73 @@ class FileW:
         return getattr(self._raw, n)
 
 
-class PathProxy:
-    def __init__(self, env):
-        self._env = env
-
-    def _probe(self, name, p):
-        env = self._env
-        run, pc = env.run_of_thread(), env.classify(p)
-        fn = getattr(real_os.path, name)
-        if run is None or pc is None:
-            return fn(p)
-        return run.step('exists', pc, lambda: fn(p))
-
-    def exists(self, p): return self._probe('exists', p)
-    def lexists(self, p): return self._probe('lexists', p)
-    def isfile(self, p): return self._probe('isfile', p)
-
-    def __getattr__(self, n):
-        return getattr(real_os.path, n)
+# originals, captured before anything is patched: the harness's own snapshots and set-up always use these
+ORIG = {'rename': real_os.rename, 'replace': real_os.replace, 'remove': real_os.remove, 'unlink': real_os.unlink,
+        'exists': real_os.path.exists, 'lexists': real_os.path.lexists, 'isfile': real_os.path.isfile}
 
 
 class OsProxy:
+    """`exposition.os`: the real (process-wide instrumented) os module, except that `os.name` can be scripted"""
+
     def __init__(self, env):
         self._env = env
-        self.path = PathProxy(env)
 
     @property
     def name(self):
         return self._env.osname
 
-    def _mv(self, fname, a, b):
-        env = self._env
-        run, ca, cb = env.run_of_thread(), env.classify(a), env.classify(b)
-        fn = getattr(real_os, fname)
-        if run is None or ca is None or cb is None:
-            return fn(a, b)
-        return run.step('rename', '%s>%s' % (ca, cb), lambda: fn(a, b))
-
-    def rename(self, a, b): return self._mv('rename', a, b)
-    def replace(self, a, b): return self._mv('replace', a, b)
-
-    def _rm(self, fname, p):
-        env = self._env
-        run, pc = env.run_of_thread(), env.classify(p)
-        fn = getattr(real_os, fname)
-        if run is None or pc is None:
-            return fn(p)
-        return run.step('remove', pc, lambda: fn(p))
-
-    def remove(self, p): return self._rm('remove', p)
-    def unlink(self, p): return self._rm('unlink', p)
-
     def __getattr__(self, n):
         return getattr(real_os, n)
 
 
+def make_probe(env, name):
+    fn = ORIG[name]
+
+    def probe(p):
+        run, pc = env.run_of_thread(), None
+        if run is not None:
+            pc = env.classify(p)
+        if pc is None:
+            return fn(p)
+        return run.step('exists', pc, lambda: fn(p))
+    return probe
+
+
+def make_mv(env, name):
+    fn = ORIG[name]
+
+    def mv(a, b, *rest, **kw):
+        run = env.run_of_thread()
+        if run is None or rest or kw:
+            return fn(a, b, *rest, **kw)
+        ca, cb = env.classify(a), env.classify(b)
+        if ca is None or cb is None:
+            return fn(a, b)
+        return run.step('rename', '%s>%s' % (ca, cb), lambda: fn(a, b))
+    return mv
+
+
+def make_rm(env, name):
+    fn = ORIG[name]
+
+    def rm(p, *rest, **kw):
+        run = env.run_of_thread()
+        if run is None or rest or kw:
+            return fn(p, *rest, **kw)
+        pc = env.classify(p)
+        if pc is None:
+            return fn(p)
+        return run.step('remove', pc, lambda: fn(p))
+    return rm
+
+
 def make_open(env):
     def wrapped_open(p, mode='r', *a, **kw):
-        run, pc = env.run_of_thread(), env.classify(p)
-        if run is None or pc is None or not any(c in mode for c in 'wax+'):
+        run = env.run_of_thread()
+        if run is None or not isinstance(mode, str) or not any(c in mode for c in 'wax+'):
+            return real_open(p, mode, *a, **kw)
+        pc = env.classify(p)
+        if pc is None:
             return real_open(p, mode, *a, **kw)
         box = {}
 
@@ -335,28 +345,48 @@ def make_generate(env, real_generate):
 
 
 class Patched:
-    """exposition.open / exposition.os replaced for the duration of a with-block"""
+    """For the duration of a with-block the file effects are instrumented PROCESS-WIDE — `builtins.open`/`io.open`,
+    `os.rename`, `os.replace`, `os.remove`, `os.unlink`, `os.path.exists`/`lexists`/`isfile` — so that effects reached
+    indirectly (through shutil, pathlib, a helper …) are recorded, snapshotted and faultable exactly like direct ones.
+    The wrappers act only in a thread that is executing an instrumented call and only on paths inside the scratch
+    directory; everything else passes straight through.  `exposition.os` is a thin proxy over the (instrumented) os
+    module that lets the scenario script `os.name`; `exposition.generate_latest` records the encode step."""
 
     def __init__(self, env):
         self.env = env
 
     def __enter__(self):
+        import builtins
+        import io
         from prometheus_client import exposition
+        env = self.env
         self.mod = exposition
-        self.saved_os = exposition.os
-        exposition.os = OsProxy(self.env)
-        exposition.open = make_open(self.env)
-        self.saved_gen = exposition.generate_latest
-        exposition.generate_latest = make_generate(self.env, self.saved_gen)
+        self.saved = []
+
+        def put(obj, name, val):
+            self.saved.append((obj, name, getattr(obj, name)))
+            setattr(obj, name, val)
+        try:
+            wo = make_open(env)
+            put(builtins, 'open', wo)
+            put(io, 'open', wo)
+            put(real_os, 'rename', make_mv(env, 'rename'))
+            put(real_os, 'replace', make_mv(env, 'replace'))
+            put(real_os, 'remove', make_rm(env, 'remove'))
+            put(real_os, 'unlink', make_rm(env, 'unlink'))
+            for n in ('exists', 'lexists', 'isfile'):
+                put(real_os.path, n, make_probe(env, n))
+            put(exposition, 'os', OsProxy(env))
+            put(exposition, 'generate_latest', make_generate(env, exposition.generate_latest))
+        except BaseException:
+            self.__exit__()
+            raise
         return self
 
     def __exit__(self, *a):
-        self.mod.os = self.saved_os
-        self.mod.generate_latest = self.saved_gen
-        try:
-            del self.mod.open
-        except AttributeError:
-            pass
+        for obj, name, val in reversed(self.saved):
+            setattr(obj, name, val)
+        self.saved = []
 
 
 # ------------------------------------------------------------------------------------------------ registries
@@ -511,8 +541,9 @@ def oracle_single(ctx, case, obs):
     elif raised is not obs['injected']:
         fail('C18:exception-changed', '%s: caller saw %r, not the injected exception object' % (where, raised))
     if obs['final_target'] != old:
-        fail('C18:target-changed-on-failure', '%s: the call raised but the target holds %s instead of its previous content (%s)'
-             % (where, show(obs['final_target']), show(old)))
+        fail('C18:target-changed-on-failure', '%s: %s but the target holds %s instead of its previous content (%s)'
+             % (where, 'the call raised' if raised is not None else 'the step failed (the call hid it and returned)',
+                show(obs['final_target']), show(old)))
     if extra:
         if is_exc:
             fail('C18:tmp-left', '%s: the call raised and left %s behind' % (where, extra))
